@@ -245,6 +245,10 @@ package syncer
 //@   requires not_in_txn: ghost_inTxn == 0
 //@   requires retry_budget: s.c.StorageRetryCount >= 1 || s.c.StorageRetryForever
 //@   modifies *
+//@   loop 0 invariant not_failed: ghost_loc_failed == 0
+//@   loop 1 invariant not_failed: ghost_loc_failed == 0
+//@   loop 2 invariant not_failed: ghost_loc_failed == 0
+//@   loop 3 invariant not_failed: ghost_loc_failed == 0
 //@   loop 2 invariant inv: ghostInv()
 //@   loop 2 invariant not_in_txn: ghost_inTxn == 0
 //@   loop 2 invariant I0: uint64(lastSyncedTxnID) <= ghost_last
@@ -264,7 +268,7 @@ package syncer
 //@   at_call syncer.(*Syncer).SendOnce#0 assert no_snapshot_exists_yet: hasDataAtStart && !hasSnapshots
 //@   at_call syncer.(*Syncer).SendOnce#1 assert own_old_snapshot_loaded_first: !waitingForInstances.Contains(ownInstanceID)
 //@   at_call syncer.(*Syncer).SendOnce#1 assert local_change_startup_or_forced: snapshotOverdue || ghost_loc_prevSynced == 0 || ghost_lastApp > ghost_loc_prevSynced
-//@   noswallow
+//@   noswallow except receiver.(*Receiver).RunOnce
 //@   at_call utils.SleepContext#0 assert idle_published: !s.opt.ReceiveOnly && ghost_loc_info <= uint64(lastSyncedTxnID) ==> ghost_unpub > ghost_loc_info
 //@   at_call utils.SleepContext#0 assert idle_only_waiting_own: ghost_loc_info > uint64(lastSyncedTxnID) ==> ghost_loc_waitOwn == 1
 
